@@ -37,6 +37,7 @@ class _State:
     exceeded = 0
     installed = False
     last_evals = 0  # evaluations used by the most recently finished flux calculation
+    tap = None  # when a list: receives (permeate composition argument, result) of driving-force evaluations
     hist = None
 
 
@@ -61,7 +62,15 @@ def install_budget():
         if S.evals > S.eval_limit:
             S.exceeded += 1
             raise BudgetExceeded("evaluation", S.evals, S.eval_limit)
-        return orig_helper(self, *a, **k)
+        r = orig_helper(self, *a, **k)
+        if S.tap is not None:
+            y = k.get("permeate_composition", a[2] if len(a) > 2 else None)
+            if len(S.tap) < 4:
+                S.tap.append((y, r))
+            else:  # keep the first two and the last two evaluations
+                S.tap[2] = S.tap[3]
+                S.tap[3] = (y, r)
+        return r
 
     @functools.wraps(orig_calc)
     def calc(self, *a, **k):
@@ -143,6 +152,16 @@ def budget(evals):
         yield
     finally:
         S.eval_limit, S.line_limit = old
+
+
+@contextlib.contextmanager
+def tap():
+    """record the driving-force evaluations made inside the block (first two and last two)"""
+    S.tap = []
+    try:
+        yield S.tap
+    finally:
+        S.tap = None
 
 
 def budget_stats():
